@@ -756,10 +756,6 @@ Ltac err_tac H :=
          end;
   try (inversion H; subst; reflexivity); try discriminate.
 
-Lemma construct_err' w b ps natoms tl chs time l a w' e :
-  construct w b ps natoms tl chs time l a = (w', RErr e) -> True.
-Proof. auto. Qed.
-
 Lemma slice_err v w r k copy w' e : do_slice v w r k copy = (w', RErr e) -> w' = w.
 Proof. unfold do_slice. intros H. err_tac H. Qed.
 
